@@ -75,6 +75,8 @@ func (g *Gateway) HandleGatewayProtocol(w http.ResponseWriter, r *http.Request) 
 		t = x.(*Tunnel)
 	}
 	ctx = context.WithValue(ctx, CtxTunnel, t)
+	verifHook("gw.enter", t, r.Method, found)
+	defer verifHook("gw.exit", t, r.Method)
 
 	if r.Method == MethodRDGOUT {
 		if r.Header.Get("Connection") != "upgrade" && r.Header.Get("Upgrade") != "websocket" {
@@ -170,6 +172,7 @@ func (g *Gateway) handleWebsocketProtocol(ctx context.Context, c *websocket.Conn
 	t.transportOut = inout
 	t.transportIn = inout
 	t.ConnectedOn = time.Now()
+	verifHook("ws.open", t)
 
 	handler := NewProcessor(g, t)
 	RegisterTunnel(t, handler)
@@ -193,9 +196,12 @@ func (g *Gateway) handleLegacyProtocol(w http.ResponseWriter, r *http.Request, t
 		log.Printf("Opening RDGOUT for client %s", id.GetAttribute(identity.AttrClientIp))
 
 		t.transportOut = out
+		verifHook("legacy.out.attached", t)
 		out.SendAccept(true)
+		verifHook("legacy.out.accepted", t)
 
 		c.Set(t.RDGId, t, cache.DefaultExpiration)
+		verifHook("legacy.out.published", t)
 	} else if r.Method == MethodRDGIN {
 		legacyConnections.Inc()
 		defer legacyConnections.Dec()
@@ -213,10 +219,12 @@ func (g *Gateway) handleLegacyProtocol(w http.ResponseWriter, r *http.Request, t
 			c.Set(t.RDGId, t, cache.DefaultExpiration)
 
 			log.Printf("Opening RDGIN for client %s", id.GetAttribute(identity.AttrClientIp))
+			verifHook("legacy.in.attached", t)
 			in.SendAccept(false)
 
 			// read some initial data
 			in.Drain()
+			verifHook("legacy.in.drained", t)
 
 			log.Printf("Legacy handshakeRequest done for client %s", id.GetAttribute(identity.AttrClientIp))
 			handler := NewProcessor(g, t)
